@@ -681,6 +681,7 @@ pub fn replay_bounded(unit: &str) -> Option<i32> {
         "b_generate_constructed" => run_grid(unit, contract_generate_constructed, limit),
         "b_c04_component_bounds" => run_grid(unit, contract_generate_component_bounds, limit),
         "b_generate_enumerated" => run_grid(unit, contract_generate_enumerated, limit),
+        "b_c06_literal_width" => run_grid(unit, contract_literal_width, limit),
         "b_c04_named_number_via_reference" => run_grid(unit, contract_named_number_through_reference, limit),
         "b_c04_string_component_size" => run_grid(unit, contract_generate_string_component_size, limit),
         "b_c07_format_oid" => run_grid(unit, contract_format_oid, limit),
@@ -1780,6 +1781,51 @@ pub fn contract_generate_string_component_size<C: Ctx>(cx: &mut C) {
         let want = if ext { format!("size (\"{range}\" , extensible)") } else { format!("size (\"{range}\")") };
         if known_multiplier {
             vob!(cx, "C04.generate.known_multiplier_string_component_carries_its_size_bound", fields.len() == 1 && fields[0].contains(&want));
+        }
+    }
+    #[cfg(kani)]
+    { let _ = cx; }
+}
+
+/// C06 — "every integer literal emitted for a value assignment or DEFAULT fits the type it is declared with":
+/// `ASN1Value::link_with_type` tags an integer literal with the width of its governing INTEGER type
+/// (validator/linking/mod.rs, the `(Integer, Integer)` and `(Integer, LinkedNestedValue{Integer})` arms).
+/// Bounded stand-in (native): literal and range ends from the width boundaries, literal inside the range.
+pub fn contract_literal_width<C: Ctx>(cx: &mut C) {
+    #[cfg(not(kani))]
+    {
+        use crate::intermediate::constraints::*;
+        use crate::intermediate::types::*;
+        use std::collections::BTreeMap;
+        const PTS: [i128; 12] = [-32769, -129, -128, -1, 0, 127, 128, 255, 256, 65535, 65536, 4294967296];
+        let lo = PTS[cx.choose(12)];
+        let hi = PTS[cx.choose(12)];
+        let v = PTS[cx.choose(12)];
+        if !cx.assume(lo <= v && v <= hi) { return; }
+        let ext = cx.any_bool();
+        let nested = cx.any_bool();
+        let c = Constraint::Subtype(ElementSetSpecs { set: ElementOrSetOperation::Element(SubtypeElements::ValueRange { min: Some(ASN1Value::Integer(lo)), max: Some(ASN1Value::Integer(hi)), extensible: ext }), extensible: false });
+        let ty = ASN1Type::Integer(Integer { constraints: vec![c], distinguished_values: None });
+        let mut value = if nested { ASN1Value::LinkedNestedValue { supertypes: vec![], value: Box::new(ASN1Value::Integer(v)) } } else { ASN1Value::Integer(v) };
+        cx.describe(|| format!("INTEGER ({lo}..{hi}{}) literal={v}{}", if ext { ", ..." } else { "" }, if nested { " (reached through a type reference)" } else { "" }));
+        let tlds = BTreeMap::new();
+        let r = value.link_with_type(&tlds, &ty, None);
+        vob!(cx, "C06.literal.links", r.is_ok());
+        let linked = match &value { ASN1Value::LinkedNestedValue { value, .. } => (**value).clone(), other => other.clone() };
+        match linked {
+            ASN1Value::LinkedIntValue { integer_type, value: got } => {
+                let fits = match integer_type {
+                    IntegerType::Uint8 => (0..=255).contains(&got), IntegerType::Int8 => (-128..=127).contains(&got),
+                    IntegerType::Uint16 => (0..=65535).contains(&got), IntegerType::Int16 => (-32768..=32767).contains(&got),
+                    IntegerType::Uint32 => (0..=4294967295i128).contains(&got), IntegerType::Int32 => (-2147483648i128..=2147483647).contains(&got),
+                    IntegerType::Uint64 => (0..=18446744073709551615i128).contains(&got), IntegerType::Int64 => (-9223372036854775808i128..=9223372036854775807).contains(&got),
+                    IntegerType::Unbounded => true,
+                };
+                vob!(cx, "C06.literal.value_kept", got == v);
+                vob!(cx, "C06.literal.fits_the_type_it_is_declared_with", fits);
+                vob!(cx, "C06.literal.declared_with_the_width_of_its_governing_type", integer_type == Integer { constraints: ty.constraints().to_vec(), distinguished_values: None }.int_type());
+            }
+            _ => { vob!(cx, "C06.literal.becomes_a_typed_integer", false); }
         }
     }
     #[cfg(kani)]
